@@ -19,7 +19,7 @@ pub fn outcome_of(t: &Option<Terminal>) -> Option<Outcome> {
 }
 
 pub fn c04_start(inp: &Inp) -> Verdict {
-    let s = decode(inp, 0, KIND_NONE, HIST_MAX);
+    let s = decode(inp, 0, KIND_NONE, 0);
     vassume!(s.board.well_formed());
     let gs = build_state(&s);
     let got = outcome_of(&gs.is_terminal());
@@ -63,12 +63,17 @@ pub fn c04_start(inp: &Inp) -> Verdict {
 /// Mid-turn: the only way to a result is having no action; a goal rabbit or a lost last rabbit
 /// does not by itself end the game. (Exact mid-turn equivalence with the offered list: C07.)
 pub fn c04_mid<const STEP: usize, const KIND: u8>(inp: &Inp) -> Verdict {
-    let s = decode(inp, STEP, KIND, HIST_MAX);
+    // empty history: the pass can still be withheld (symbolic turn-initial hash), so both the
+    // early exit of has_move and its generator paths are exercised
+    let s = decode(inp, STEP, KIND, 0);
     vassume!(inv_rules(&s));
     // at step 3 the repetition rules may withhold every step unless a capture happened this
     // turn; the hash-dependent part belongs to C07/C05, here a capture is assumed
+    // CONCRETE flag (not an assumption on a symbolic one): the engine then never enters the
+    // hash-dependent 4th-step filter, which these projected runs cannot evaluate
+    let mut s = s;
     if STEP == 3 {
-        vassume!(s.trapped);
+        s.trapped = true;
     }
     let gs = build_state(&s);
     let got = outcome_of(&gs.is_terminal());
